@@ -186,6 +186,15 @@ class Ctx:
     pass
 
 
+# non-initial start states: prefixes of valid calls replayed on every fresh context
+STARTS = {
+    'busy': [('attach',), ('compromise', 0, 3, 'attacker'), ('compromise', 1, 0, 'node'), ('analyse',),
+             ('add_node', None), ('remove_node', 1), ('add_attacker', None, (0,), (0, 2))],
+    'reloaded': [('attach',), ('compromise', 0, 4, 'attacker'), ('saveload', 'yml', True), ('add_node', None),
+                 ('remove_node', 2)],
+}
+
+
 class GraphSystem(System):
     """cfg: {'lang': 'GOPS'|'GOPS2', 'alphabet': 'structure'|'attackers'|'all', 'start': 'generated'|'synthetic'}"""
 
@@ -213,6 +222,8 @@ class GraphSystem(System):
         c.scratch_n = 0
         c.last_outcome = None
         self._remember(c)
+        for op in STARTS.get(self.cfg.get('start'), ()):
+            self.step(c, tuple(op), False)
         return c
 
     def _remember(self, c):
